@@ -127,6 +127,9 @@ def bodies(tier):
     add("file+field", [mpart("file", b"f", b"x" * 40), mpart("field", b"a", b"v" * 8)])
     add("field+file", [mpart("field", b"a", b"v" * 8), mpart("file", b"f", b"x" * 40)])
     add("file_lines", [mpart("file", b"f", b"line\r\n" * 8), mpart("field", b"a", b"w\r\nx\r\ny")])
+    # uploads much larger than the fields: the memory limit must not count file bytes
+    add("bigfile_x", [mpart("field", b"a", b"v" * 8), mpart("file", b"f", b"x" * 220), mpart("field", b"b", b"w" * 5)])
+    add("bigfile_lines", [mpart("file", b"f", b"0123456789\r\n" * 18), mpart("field", b"a", b"v" * 8)])
     add("many_small", [mpart("field", b"k%d" % (i % 3), b"%d" % i) for i in range(6)])
     add("many_mixed", [mpart("field" if i % 2 else "file", b"k", b"z" * i) for i in range(5)])
     add("three_fields", [mpart("field", b"a", b"1" * 8), mpart("field", b"b", b"2" * 9), mpart("field", b"a", b"3" * 7)])
@@ -178,8 +181,8 @@ class CountingStream:
     def read(self, n=-1):
         self.reads += 1
         if n is None or n < 0:
-            n = len(self.data) - self.pos
-        if self.k:
+            n = len(self.data) - self.pos  # read() without a size must return everything up to EOF
+        elif self.k:
             n = min(n, self.k)
         out = self.data[self.pos:self.pos + n]
         self.pos += len(out)
@@ -206,6 +209,11 @@ def _outcome(fn):
         return ("error:" + type(e).__name__, None)
 
 
+def declared_length(body, cl):
+    """cl: True = honest CONTENT_LENGTH; "short" = the client declares 3 bytes less than it sends"""
+    return max(len(body) - 3, 0) if cl == "short" else len(body)
+
+
 def make_environ(body, meta, cl, term, k):
     st = CountingStream(body, k)
     env = {"wsgi.input": st, "REQUEST_METHOD": "POST", "wsgi.url_scheme": "http", "SERVER_NAME": "x",
@@ -215,7 +223,7 @@ def make_environ(body, meta, cl, term, k):
     else:
         env["CONTENT_TYPE"] = "application/x-www-form-urlencoded"
     if cl:
-        env["CONTENT_LENGTH"] = str(len(body))
+        env["CONTENT_LENGTH"] = str(declared_length(body, cl))
     if term:
         env["wsgi.input_terminated"] = True
     return env, st
@@ -315,36 +323,60 @@ class Local:
         self.evals = 0
         self.distinct = set()
         self.fails = {}
+        self.c01_interference = 0
+        self.q = ""
 
     def case(self, check, key, nontrivial=True, n=1):
+        check += self.q
         self.evals += n
         if nontrivial:
             self.distinct.add((check, hashlib.blake2b(repr(key).encode(), digest_size=8).digest()))
 
     def fail(self, check, inp, observed, expected):
+        check += self.q
         lst = self.fails.setdefault(check, [])
         if len(lst) < PER_CHECK_FAILS:
             lst.append((inp, observed, expected))
 
     def pack(self):
-        return self.evals, self.distinct, self.fails
+        return self.evals, self.distinct, self.fails, self.c01_interference
 
 
 # --------------------------------------------------------------------------- the oracle for one high-level run
 
 
-def judge(L: Local, entry, body, meta, cfg, oc, unl, reads, nbytes, maxbuf, chunk):
+def judge(L: Local, entry, body, meta, cfg, oc, unl, reads, nbytes, maxbuf, chunk, body_repr=None):
     """cfg: dict(M,P,Lim,cl,term,k/bs); oc: outcome under limits; unl: outcome of the same run without limits"""
     M, P, Lim = cfg["M"], cfg["P"], cfg["L"]
     cl, term = cfg.get("cl", True), cfg.get("term", False)
     n = len(body)
     inp = dict(cfg)
-    inp.update({"entry": entry, "body": body, "meta": meta})
-    key = (entry, body, tuple(sorted((k, repr(v)) for k, v in cfg.items())))
+    inp.update({"entry": entry, "body": body if body_repr is None else body_repr, "meta": meta})
+    key = (entry, hashlib.blake2b(body, digest_size=8).digest(), tuple(sorted((k, repr(v)) for k, v in cfg.items())))
     nontrivial = (M is not None or P is not None or Lim is not None)
     body_is_read = cl or term  # otherwise werkzeug substitutes an empty stream
     fmax = max([s for _, s in meta["fields"]], default=0)
+    nparts = meta["nparts"]
+    if unl[0] == "ok" and meta["multipart"]:
+        # what this chunking makes of the body without limits is the reference for "how many parts / how large a
+        # field the limits get to see" (keeps the C01 chunk-dependence defects from being reported here)
+        seen = len(unl[1][0]) + len(unl[1][1])
+        seen_fmax = max([len(v.encode("utf-8")) for _, v in unl[1][0]], default=0)
+        if seen != nparts or seen_fmax != fmax:
+            L.c01_interference += 1
+            nparts = seen
+            fmax_spurious = max(fmax, seen_fmax)
+            fmax = min(fmax, seen_fmax)
+        else:
+            fmax_spurious = fmax
+    else:
+        fmax_spurious = fmax
     status = oc[0]
+    if not meta["multipart"]:
+        # input class in the check name (known findings are keyed by it)
+        L.q = ":urlencoded" + ("+shortCL" if cl == "short" else "+CL" if cl else "-CL") + ("+terminated" if term else "")
+    else:
+        L.q = ""
 
     # guard purity
     L.case("guard_purity", key, nontrivial)
@@ -371,15 +403,15 @@ def judge(L: Local, entry, body, meta, cfg, oc, unl, reads, nbytes, maxbuf, chun
         L.case("parts_limit", key, meta["nparts"] > 0)
         if status == "ok":
             cnt = len(oc[1][0]) + len(oc[1][1])
-            if cnt > P or meta["nparts"] > P:
+            if cnt > P or nparts > P:
                 L.fail("parts_limit", inp, {"outcome": oc, "parts": cnt, "P": P}, "413 (more parts than allowed)")
-        elif meta["nparts"] > P and status != "413" and unl[0] == "ok":
+        elif nparts > P and status != "413" and unl[0] == "ok":
             L.fail("parts_limit", inp, oc, "413 (more parts than allowed)")
 
     # content length / stream maximum
     if Lim is not None and reads is not None:
         L.case("content_length", key, True)
-        if cl and n > Lim:
+        if cl and declared_length(body, cl) > Lim:
             if status != "413" or reads != 0:
                 L.fail("content_length", inp, {"outcome": oc, "reads": reads, "bytes": nbytes},
                        "413 before reading anything (declared length > max_content_length)")
@@ -400,14 +432,14 @@ def judge(L: Local, entry, body, meta, cfg, oc, unl, reads, nbytes, maxbuf, chun
     if unl[0] == "ok":
         fits_m = (M is None or M >= n or (
             meta["multipart"] and meta["benign"] and chunk is not None and M >= chunk + meta["hold"] + 8
-            and fmax <= M))
-        fits_p = P is None or P >= meta["nparts"] or not meta["multipart"]
+            and fmax_spurious <= M))
+        fits_p = P is None or P >= max(nparts, meta["nparts"]) or not meta["multipart"]
         if Lim is None or not body_is_read:
             fits_l = True
         elif term:
             fits_l = Lim > n
         else:
-            fits_l = Lim >= n
+            fits_l = Lim >= n and cl is True
         if fits_m and fits_p and fits_l:
             L.case("no_spurious_413", key, nontrivial)
             if status == "413":
@@ -416,7 +448,8 @@ def judge(L: Local, entry, body, meta, cfg, oc, unl, reads, nbytes, maxbuf, chun
 
 # --------------------------------------------------------------------------- tasks
 
-ENVS = [(True, False), (True, True), (False, True), (False, False)]  # (CONTENT_LENGTH present, input_terminated)
+# (CONTENT_LENGTH: True honest / False absent / "short" = 3 bytes less than sent, wsgi.input_terminated)
+ENVS = [(True, False), (True, True), (False, True), (False, False), ("short", True)]
 
 
 def task_product(args):
@@ -434,6 +467,10 @@ def task_product(args):
     ks = [1, 3, 16, None] if tier == "quick" else [1, 2, 3, 7, 16, 64, None]
     runner = run_pfd if entry == "parse_form_data" else run_request
     for cl, term in ENVS:
+        if cl == "short" and not meta["multipart"]:
+            # an understated CONTENT_LENGTH is outside the quantifier's domain; it is used for multipart bodies
+            # only, as an extra probe that a terminated stream is capped by max_content_length (see FINDINGS_C10)
+            continue
         for k in ks:
             unl = runner(body, meta, cl, term, k, None, None, None)[0]
             for M, P, Lim in itertools.product(Ms, Ps, Ls):
@@ -483,6 +520,10 @@ def task_decoder(args):
     Pvals = list(range(0, meta["nparts"] + 2))
     for cuts in scheds:
         unl, _, _, _ = run_decoder(body, bd, cuts, None, None)
+        # parts this schedule yields without limits (differs from the generator only through C01's defects)
+        nparts = len(unl[1]) if unl[0] == "ok" else meta["nparts"]
+        if nparts != meta["nparts"]:
+            L.c01_interference += 1
         for M, P in [(m, None) for m in Ms if m >= 0] + [(None, p) for p in Pvals] + [(n, meta["nparts"]), (1, 0)]:
             oc, viol, maxbuf, nev = run_decoder(body, bd, cuts, M, P)
             key = (body, tuple(cuts), M, P)
@@ -497,12 +538,12 @@ def task_decoder(args):
                     L.fail("buffer_bound", inp, {"max_len_buffer": maxbuf, "M": M}, "len(buffer) <= M always")
             if P is not None and not meta.get("invalid"):
                 L.case("parts_limit", key, nontriv)
-                if nev > P or (oc[0] == "ok" and meta["nparts"] > P) or (
-                        meta["nparts"] > P and oc[0] != "413" and unl[0] == "ok"):
+                if nev > P or (oc[0] == "ok" and nparts > P) or (
+                        nparts > P and oc[0] != "413" and unl[0] == "ok"):
                     L.fail("parts_limit", inp, {"outcome": oc, "part_events": nev, "P": P},
                            "at most P Field/File events; 413 when the body has more")
                 L.case("no_spurious_413", key, nontriv)
-                if M is None and P >= meta["nparts"] and oc[0] == "413":
+                if M is None and P >= max(nparts, meta["nparts"]) and oc[0] == "413":
                     L.fail("no_spurious_413", inp, oc, "ok: parts <= max_parts")
             L.case("guard_purity", key, nontriv)
             if oc[0] == "ok" and oc != unl:
@@ -516,7 +557,19 @@ def task_decoder(args):
 def task_defaults(args):
     """thorough: the request-level defaults (500 kB per field / buffer, 1000 parts)"""
     (which,) = args
-    L = Local()
+    import shutil
+    import tempfile
+    tmp = tempfile.mkdtemp(prefix="c10-")
+    old = tempfile.tempdir
+    tempfile.tempdir = tmp  # uploads above 500 kB are spooled to disk by the parser: keep them in a private dir
+    try:
+        return _defaults(which)
+    finally:
+        tempfile.tempdir = old
+        shutil.rmtree(tmp, ignore_errors=True)
+
+
+def _default_cases(which):
     cases = []
     if which == 0:
         cases.append(("parts1000", [mpart("field", b"k", b"v") for _ in range(1000)]))
@@ -528,6 +581,7 @@ def task_defaults(args):
     else:
         cases.append(("file600000", [mpart("file", b"f", (b"x" * 99 + b"\n") * 6000), mpart("field", b"a", b"v" * 10)]))
         cases.append(("nodelim600000", None))
+    out = []
     for tag, parts in cases:
         if parts is None:
             body = b"z" * 600_000
@@ -536,25 +590,35 @@ def task_defaults(args):
         else:
             body, meta = build(parts, boundary=b"bnd")
             meta["tag"] = tag
-        n = len(body)
+        out.append((tag, body, meta))
+    return out
+
+
+def _default_one(L, tag, body, meta, cl, term, k):
+    n = len(body)
+    env, st = make_environ(body, meta, cl, term, k)
+    _State.maxbuf = 0
+    r = Request(env)
+    oc = _outcome(lambda: _norm(r.form, r.files))
+    maxbuf = _State.maxbuf
+    env2, _ = make_environ(body, meta, cl, term, k)
+
+    class RU(Request):
+        max_form_memory_size = None
+        max_form_parts = None
+    r2 = RU(env2)
+    unl = _outcome(lambda: _norm(r2.form, r2.files))
+    cfg = {"M": 500_000, "P": 1000, "L": None, "cl": cl, "term": term, "k": k}
+    judge(L, "Request(defaults)", body, dict(meta), cfg, oc, unl, st.reads, st.nbytes, maxbuf,
+          k if k else 64 * 1024, body_repr=body[:120] + b"...(%d bytes, tag %s)" % (n, tag.encode()))
+
+
+def _defaults(which):
+    L = Local()
+    for tag, body, meta in _default_cases(which):
         for cl, term in ((True, False), (False, True)):
             for k in (None, 4096):
-                env, st = make_environ(body, meta, cl, term, k)
-                _State.maxbuf = 0
-                r = Request(env)
-                oc = _outcome(lambda: _norm(r.form, r.files))
-                maxbuf = _State.maxbuf
-                env2, _ = make_environ(body, meta, cl, term, k)
-
-                class RU(Request):
-                    max_form_memory_size = None
-                    max_form_parts = None
-                r2 = RU(env2)
-                unl = _outcome(lambda: _norm(r2.form, r2.files))
-                cfg = {"M": 500_000, "P": 1000, "L": None, "cl": cl, "term": term, "k": k}
-                small_meta = dict(meta)
-                judge(L, "Request(defaults)", body if n < 3000 else body[:200] + b"...(%d bytes)" % n, small_meta, cfg,
-                      oc, unl, st.reads, st.nbytes, maxbuf, k if k else 64 * 1024)
+                _default_one(L, tag, body, meta, cl, term, k)
     return L.pack()
 
 
@@ -589,7 +653,8 @@ def _domain(tier):
         "header; 60-byte preamble; boundary look-alikes followed by a long line; 37-byte boundary; 4 bodies without "
         "any delimiter%s) + 5 urlencoded bodies; parse_form_data%s: max_form_memory_size in {None, Fmax-1, Fmax, "
         "len+64} x max_form_parts in {None, n-1, n, 1000} x max_content_length in {None, len-1, len, len+1, 10^6} x "
-        "{CONTENT_LENGTH yes/no} x {wsgi.input_terminated yes/no} x read sizes %s; MultiPartParser: every M in "
+        "{CONTENT_LENGTH yes/no} x {wsgi.input_terminated yes/no} (+ multipart only: terminated stream with a CONTENT_LENGTH 3 "
+        "bytes short) x read sizes %s; MultiPartParser: every M in "
         "0..len+1 and every max_form_parts in 0..n+1 x buffer_size in %s; MultipartDecoder: every 2-way split, "
         "byte-at-a-time and chunks of 2,3,7 x M in {0..3, Fmax-1..Fmax+1, header block size -1/+0, len/2, len-1..len+1}%s "
         "x max_parts in 0..n+1.%s"
@@ -607,11 +672,13 @@ def run(tier: str, seed: int, reg=None) -> dict:
     common.assert_tree()
     col = common.Collector(RULE, _domain(tier))
     fails = {}
+    interference = 0
     _install_probe()
     try:
         ctx = multiprocessing.get_context("fork")
         with ctx.Pool(min(16, os.cpu_count() or 1)) as pool:
-            for evals, distinct, f in pool.imap_unordered(_dispatch, _tasks(tier), chunksize=1):
+            for evals, distinct, f, ci in pool.imap_unordered(_dispatch, _tasks(tier), chunksize=1):
+                interference += ci
                 col.evaluations += evals
                 col.distinct |= distinct
                 for check, lst in f.items():
@@ -626,13 +693,15 @@ def run(tier: str, seed: int, reg=None) -> dict:
     b0, m0 = bodies(tier)[1]
     col.samples = [{"check": "field_limit", "input": common._j({"entry": "parse_form_data", "body": b0, "M": 0})}]
     res = col.result()
-    res["failing_checks"] = {k: len(v) for k, v in sorted(fails.items())}
+    res["failing_checks_capped_per_task"] = {k: len(v) for k, v in sorted(fails.items())}
+    res["runs_where_unlimited_parse_differs_from_generator"] = interference
     return res
 
 
 def replay(payload: dict) -> bool:
     common.assert_tree()
-    check = payload["obligation"].split(":", 1)[1]
+    full_check = payload["obligation"].split(":", 1)[1]
+    check = full_check.split(":", 1)[0]
     inp = common.unj(payload["inputs"])
     L = Local()
     _install_probe()
@@ -672,8 +741,22 @@ def replay(payload: dict) -> bool:
             oc, reads, nbytes, maxbuf = runner(body, meta, cl, term, k, M, P, Lim)
             judge(L, entry, body, meta, {"M": M, "P": P, "L": Lim, "cl": cl, "term": term, "k": k}, oc, unl, reads,
                   nbytes, maxbuf, k if k else n)
+        elif entry == "Request(defaults)":
+            import shutil
+            import tempfile
+            tmp = tempfile.mkdtemp(prefix="c10-")
+            old = tempfile.tempdir
+            tempfile.tempdir = tmp
+            try:
+                for w in range(3):
+                    for tag, body, m2 in _default_cases(w):
+                        if tag == meta["tag"]:
+                            _default_one(L, tag, body, m2, inp["cl"], inp["term"], inp["k"])
+            finally:
+                tempfile.tempdir = old
+                shutil.rmtree(tmp, ignore_errors=True)
         else:
-            raise ValueError("replay of %s needs the generated body; run the thorough tier" % entry)
-        return bool(L.fails.get(check))
+            raise ValueError("unknown entry " + entry)
+        return any(k.split(":", 1)[0] == check for k in L.fails)
     finally:
         _remove_probe()
